@@ -56,15 +56,17 @@ package mqttproxy
 // Oracle decisions (statement silent / two readings) — accepted both ways or
 // not generated:
 //   * a SUBSCRIBE/UNSUBSCRIBE whose acknowledgement was not read while its
-//     connection was still the current one (connection ended or a newer CONNECT
-//     had been sent): its filters are "ambiguous" for the rest of the run and
-//     are neither required nor forbidden to deliver.
+//     connection was still the current one (connection ended, a newer CONNECT
+//     had been sent, or the final probes had been published): its filters are
+//     "ambiguous" for the rest of the run and are neither required nor
+//     forbidden to deliver. A superseded connection issues no further steps.
 //   * after an injected storage error (get/put/delete) every filter ever used
 //     by the contested id is ambiguous at the next reconnect (the statement
 //     does not cover storage failure).
 //   * the CONNACK session-present flag and SUBACK return codes are not checked.
-//   * connections that must stay use keep-alive 0 or 3600 s: a scheduler stall
-//     may otherwise expire a healthy connection's keep-alive (not a defect).
+//   * the surviving connection uses keep-alive 0 or 3600 s: a scheduler stall
+//     may otherwise expire a healthy connection's keep-alive (not a defect). A
+//     last connection with a short keep-alive is not treated as a survivor.
 //   * QoS1 publishes are only generated when every subscription is QoS1 (the
 //     QoS-downgrade enumeration is C15's subject); QoS2 never.
 //   * handshake aborts (connection dropped between CONNECT and CONNACK), two
@@ -73,16 +75,47 @@ package mqttproxy
 //   * "admin delete disconnects that client" is asserted only if the session
 //     key existed in the store at that moment and the delete did not fail; TCP
 //     closure is required only after the client's next packet.
+//   * a superseded connection gets no answers any more and is not closed by
+//     the broker either (until its next packet / keep-alive): not asserted.
+//   * per-segment latency is capped at 5 ms when segments or the window are
+//     tiny: otherwise the link is slower than the broker's 200 ms resend rate
+//     and the run ends in a congestion collapse unrelated to the property.
 //   * the session store is asynchronous in easegress (SUBACK is sent before the
 //     session is persisted). Runs with storage latency (store.async) report
 //     missing/stale inherited subscriptions of a session restored from the
 //     store under their own class suffix ".store-lag".
 //
-// White-box state (b.clients, sessionMap, trie, writeCh, mutexes) is read
-// directly; it is part of the statement ("never removes the new connection's
-// session, its subscriptions or its registration in the broker"). Class names
-// carry the mechanism when the harness can tell it from its own observations
-// (order of handler returns vs. CONNACKs, store delete log).
+// Classes (mechanism in the name where the harness's own observations decide
+// it: order of handler returns vs. CONNACKs, the store's delete log, white-box
+// comparison of trie / session object / model):
+//   C16.takeover.session-entry-removed, .subscription-removed, .delivery-lost,
+//     .stored-session-deleted, .successor-killed   superseded connection's
+//     teardown wiped the successor's sessionMap entry / trie entries / stored
+//     session / registration (via the delete-watch)
+//   C16.discarded-session-still-delivers   trie entries of a session that had
+//     to be discarded (clean=1 takeover, or predecessor was clean) still route
+//   C16.stuck.session-locked-by-full-queue, .handler-never-returns, .session-locked
+//     publish/resend blocked on a full write queue while holding the session mutex
+//   C16.panic.session-closed-twice (and the driver's C16.process-crash)
+//     close(s.done) twice: setSession's prevSess.close() racing delLocal
+//   C16.reconnect.killed-by-own-delete-event   the delete-watch echo of the
+//     broker's own delDB disconnects the id's next connection
+//   C16.takeover.old-connection-overwrote-session   a packet of the superseded
+//     connection processed after the takeover stored its old session over the new
+//   C16.stored-session-stale   Session.store snapshots reached the storage in
+//     reverse order (decided by elimination: no latency, error, deletion, late packet)
+//   C16.reconnect.subscription-not-restored[.store-lag], C16.reconnect.stale-session-restored[.store-lag]
+//   C16.session-entry-lost, C16.registration-lost, C16.survivor-disconnected,
+//   C16.own-subscription-lost, C16.invariant.{stale,dead}-registration,
+//   C16.invariant.registration-missing, C16.admin-delete.*, C16.bystander-*,
+//   C16.connect-dropped/-refused, C16.no-response.<what>, C16.panic.handleConn
+//
+// Determinism notes: every client write is preceded by an odd number of
+// nanoseconds of sleep (distinct per client); connection handlers run as named
+// tasks; the handler-return record passes a gate first; nothing is recorded
+// while the run is wound down. check.json opts mqttproxy into select
+// determinisation, go-statement gates (needed to reach the reversed store
+// snapshots) and the time shim (tickers of sessions created at one instant).
 
 import (
 	"bytes"
@@ -409,6 +442,8 @@ type c16Store struct {
 	getHit  map[string]int
 	delLog  []string // deletes of the contested key: who/when
 	putLog  []string // puts of the contested key: when/topics
+	getMark map[string]int // number of puts of the contested key seen before the last get of a key
+	getCnt  map[string]int
 	admin   bool     // the harness's admin delete is in progress
 	delErrs int
 	quiet   bool // the run is being wound down
@@ -452,6 +487,8 @@ func (s *c16Store) get(key string) (*string, error) {
 		s.r.Fault("store.get_error")
 		return nil, c16StoreErr{"get"}
 	}
+	s.getMark[key] = len(s.putLog)
+	s.getCnt[key]++
 	if v, ok := s.data[key]; ok {
 		s.getHit[key]++
 		return &v, nil
@@ -585,6 +622,8 @@ type c16Cli struct {
 	fromDB         bool
 	prev           *c16Cli         // the connection that was current when this one sent CONNECT
 	hits0          int             // store hits of the id's key before CONNECT
+	gets0          int             // store gets of the id's key before CONNECT
+	putMark        int             // puts of the id's key that had reached the store when this connection's session was looked up there (-1: not looked up)
 	skipSteps      int             // steps already sent by connect (pipelined)
 	takenOver      bool            // a later connection was acknowledged while this one's handler was still running
 	subs           map[string]byte // bystander's own acknowledged subscriptions
@@ -1078,6 +1117,7 @@ func (h *c16H) connect(c *c16Cli) bool {
 	c.connectSeq = h.r.Seq()
 	h.logf("%s: CONNECT clean=%v keepalive=%d (conn %d)", c.name, c.spec.Clean, c.spec.KeepAlive, c.cid)
 	c.hits0 = h.st.getHit[sessionStoreKey(c.id)]
+	c.gets0 = h.st.getCnt[sessionStoreKey(c.id)]
 	if err := c.send(p); err != nil {
 		h.logf("%s: CONNECT write failed: %v", c.name, err)
 		return false
@@ -1116,6 +1156,10 @@ func (h *c16H) onConnack(c *c16Cli) {
 	}
 	prev := c.prev
 	c.fromDB = h.st.getHit[sessionStoreKey(c.id)] > c.hits0
+	c.putMark = -1
+	if h.st.getCnt[sessionStoreKey(c.id)] > c.gets0 {
+		c.putMark = h.st.getMark[sessionStoreKey(c.id)]
+	}
 	takeover := false
 	if prev != nil {
 		if s := h.srv[prev.cid]; s != nil && !s.returned {
@@ -1462,6 +1506,42 @@ func (h *c16H) killClass(def string) string {
 	return def
 }
 
+// storedHistory classifies a mismatch between the session restored from the
+// store and the model for filter f: "stale" if the store had already received a
+// snapshot with the right state of f before the session was looked up and an
+// older snapshot overwrote it (snapshots overtaking each other), "lag" if the
+// right snapshot simply had not arrived yet, "" if the store was never read.
+func (h *c16H) storedHistory(f string, want bool) string {
+	mark := -1
+	for _, c := range h.clis {
+		if c.connected && c.putMark >= 0 {
+			mark = c.putMark
+		}
+	}
+	if mark < 0 {
+		return ""
+	}
+	if mark > len(h.st.putLog) {
+		mark = len(h.st.putLog)
+	}
+	has := func(i int) bool { return strings.Contains(h.st.putLog[i]+" ", " "+f+": ") }
+	seenWant, seenOther := false, false
+	for i := 0; i < mark; i++ {
+		if has(i) == want {
+			seenWant = true
+			seenOther = false
+		} else if seenWant {
+			seenOther = true
+		}
+	}
+	// the last snapshot before the lookup has the wrong state although a
+	// snapshot with the right one had arrived before it
+	if seenWant && seenOther {
+		return "stale"
+	}
+	return "lag"
+}
+
 // brokerDeleted: the broker itself deleted the (existing) store record of the
 // contested id.
 func (h *c16H) brokerDeleted() bool {
@@ -1681,16 +1761,19 @@ func (h *c16H) final() {
 			return "C16.reconnect.subscription-not-restored.store-lag"
 		case !sessHas(f) && inh && h.takeoverTeardown() && h.brokerDeleted():
 			return "C16.takeover.stored-session-deleted"
+		case !sessHas(f) && inh && !h.st.lossy && h.storedHistory(f, true) == "stale":
+			// the store had the subscription and an older snapshot overwrote it
+			// (the snapshots of Session.store travel in goroutines of their own
+			// and may reach the storage in another order than they were taken)
+			return "C16.stored-session-stale"
 		case !sessHas(f) && inh && h.supInflight:
 			// a packet of the superseded connection was processed after the
 			// takeover and stored its old session over the successor's
 			return "C16.takeover.old-connection-overwrote-session"
-		case !sessHas(f) && inh && !h.st.lossy:
-			// no storage latency, no storage error, no deletion, no packet of a
-			// superseded connection: the stored session itself was stale (the
-			// snapshots of Session.store travel in goroutines of their own and
-			// may reach the storage in another order than they were taken)
-			return "C16.stored-session-stale"
+		case !sessHas(f) && inh && !h.st.lossy && h.storedHistory(f, true) == "lag":
+			// the snapshot with the subscription had not reached the store yet
+			// when the session was looked up there (SUBACK precedes persistence)
+			return "C16.reconnect.subscription-not-restored.store-lag"
 		case !sessHas(f) && inh:
 			return "C16.reconnect.subscription-not-restored" + lag()
 		case h.takeoverTeardown() && blackbox:
@@ -1765,7 +1848,14 @@ func (h *c16H) final() {
 			if inSession {
 				cls = "C16.reconnect.stale-session-restored" + lag()
 				if !h.sc.Store.Async && !h.st.lossy && !h.supInflight {
-					cls = "C16.stored-session-stale"
+					for _, f := range stale {
+						switch h.storedHistory(f, false) {
+						case "stale":
+							cls = "C16.stored-session-stale"
+						case "lag":
+							cls = "C16.reconnect.stale-session-restored.store-lag"
+						}
+					}
 				}
 			}
 			r.Violate(cls, "probe %s on %q was delivered to the surviving connection whose session must not have a matching filter (model %v, ambiguous %v; trie has %v for %s, matching %v, its session object has %v). %s\n%s",
@@ -1920,7 +2010,7 @@ func c16Exec(r *sim.Run, sci interface{}) {
 		}
 		return
 	}
-	h.st = &c16Store{r: r, f: sc.Store, data: map[string]string{}, ch: make(chan map[string]*string, 256), getHit: map[string]int{}}
+	h.st = &c16Store{r: r, f: sc.Store, data: map[string]string{}, ch: make(chan map[string]*string, 256), getHit: map[string]int{}, getMark: map[string]int{}, getCnt: map[string]int{}}
 	spec := &Spec{Name: "c16", EGName: "eg", Port: 1884}
 	h.b = newBroker(spec, h.st, nil, func(string, string) ([]string, error) { return nil, nil })
 	if h.b == nil {
@@ -2065,9 +2155,6 @@ func c16Exec(r *sim.Run, sci interface{}) {
 	if h.live == 0 {
 		r.WaitTasks()
 	}
-	if os.Getenv("C16_TRACE") != "" {
-		fmt.Fprintf(os.Stderr, "C16_TRACE end step=%d now=%v hist=%d live=%d seq=%d stalled=%v\n", r.Step(), r.Now(), len(h.hist), h.live, r.Seq(), r.StalledFor())
-	}
 }
 
 func m2s(m map[string]byte) string {
@@ -2093,12 +2180,14 @@ func TestVerifC16(t *testing.T) {
 			"distinct = distinct (per connection clean/end/steps/teardown position relative to the survivor's handshake/restored-from-store, final model, ambiguous set, bystanders) signatures",
 		Real: []string{"pkg/object/mqttproxy Broker (newBroker, handleConn, setSession, deleteSession, watchDelete, removeClient, sendMsgToClient, httpTopicsPublishHandler, httpDeleteSessionHandler)",
 			"Client (readLoop, writeLoop, closeAndDelSession, close, process*)", "SessionManager, Session (incl. resend ticker on the virtual clock)", "TopicManager", "paho packets codec"},
-		Stub: []string{"storage -> c16Store (map, etcd-like delete watch, optional latency/errors)", "TCP -> simnet (netshim in broker.go)", "accept loop: harness listener calling the real Broker.handleConn under recover()",
-			"MQTT clients: raw packet scripts", "no pipelines / MuxMapper", "sync, sync/atomic -> simsync/simatomic (gates)"},
+		Stub: []string{"storage -> c16Store (map, etcd-like delete watch, optional latency/errors)", "TCP -> simnet (netshim in broker.go)", "accept loop: harness listener calling the real Broker.handleConn under recover() (Broker.run idles on a port nobody dials)",
+			"MQTT clients: raw packet scripts", "no pipelines / MuxMapper", "sync, sync/atomic -> simsync/simatomic (gates); selects determinised; gates at go statements; time -> simtime in session.go/broker.go"},
 		Assumptions: []string{
 			"operations whose acknowledgement was not read while their connection was current make their filters ambiguous (neither required nor forbidden)",
 			"after an injected storage error all filters of the contested id are ambiguous at the next reconnect",
 			"surviving connections use keep-alive 0 or 3600 s (scheduler stalls would expire shorter ones)",
+			"per-segment latency capped at 5 ms on tiny segments/windows (no congestion collapse against the 200 ms resend)",
+			"runs with storage latency classify lost/stale inherited subscriptions as *.store-lag; C16.stored-session-stale is decided by elimination",
 			"QoS1 publishes only when all subscriptions are QoS1; QoS2, handshake aborts, overlapping CONNECTs of one id, watch breakage not generated",
 			"admin delete asserted only if the session key existed and the delete succeeded; TCP closure required after the client's next packet",
 			"CONNACK session-present flag and SUBACK return codes not checked",
